@@ -13,10 +13,30 @@
    InvC01.R, kept by every epsilon-move (InvC01Plan.eps_R) and every handler (MonC01Proofs.h_R). *)
 From Coercion.Base Require Import Plan.
 From Coercion.Engine Require Import Shape Event Auto PlanSM Accept.
-From Coercion.C01 Require Import MonC01 MonC01Proofs.
+From Coercion.C01 Require Import MonC01 MonC01Proofs MonC01Meaning.
 
 Theorem c01_order_and_gates :
   forall (sh : shape) (tr : list event) (s : st),
     shape_wf sh = true -> run sh init tr = Some s -> mon_order (sh, tr) = true.
 Proof. exact c01_order. Qed.
 Print Assumptions c01_order_and_gates.
+
+(* Two clauses restated in first-order terms over the trace (MonC01Meaning.v: what the monitor remembers is true of
+   the events seen so far), so that the monitor's encoding need not be taken on trust.
+   nacts sh sc g = number of actions of group g of scope sc (0 when the scope has no such group). *)
+Theorem c01_gates_declarative :
+  forall (sh : shape) (tr : list event) (s : st) (pre post : list event) (b q i : nat),
+    shape_wf sh = true -> run sh init tr = Some s -> tr = pre ++ EvStart (ASeq b q i) :: post ->
+    (forall j, j < nacts sh SPlan GPre -> In (EvEnd (AChk SPlan GPre j) OOk) pre)
+    /\ (forall j, j < nacts sh SPlan GCont -> In (EvEnd (AChk SPlan GCont j) OOk) pre)
+    /\ (forall j, j < nacts sh (SBlock b) GPre -> In (EvEnd (AChk (SBlock b) GPre j) OOk) pre)
+    /\ (forall j, j < nacts sh (SBlock b) GCont -> In (EvEnd (AChk (SBlock b) GCont j) OOk) pre).
+Proof. exact c01_gates. Qed.
+Print Assumptions c01_gates_declarative.
+
+Theorem c01_predecessor_ok_declarative :
+  forall (sh : shape) (tr : list event) (s : st) (pre post : list event) (b q i : nat),
+    shape_wf sh = true -> run sh init tr = Some s -> tr = pre ++ EvStart (ASeq b q (S i)) :: post ->
+    In (EvEnd (ASeq b q i) OOk) pre.
+Proof. exact c01_predecessor_ok. Qed.
+Print Assumptions c01_predecessor_ok_declarative.
